@@ -199,7 +199,26 @@ class ExternMixin:
             return r
         return SV('opq', self.ufunc('np_dtype', OPQ, OPQ)(self.as_opq(a)), 'dtype')
 
+    def ext_rng(self, args, kw, node):
+        """X-RNG: np.random.randint(lo, hi): an unconstrained integer in [lo, hi); every call is counted in the ghost rng_calls"""
+        self.st.ghost['rng_calls'] = VI(self.as_int(self.st.ghost.get('rng_calls', VI(0))) + 1)
+        r = self.sym('random', INT)
+        if len(args) >= 2 and self.is_num(args[0]) and self.is_num(args[1]):
+            self.assume(z3.And(r >= self.as_int(args[0]), r < self.as_int(args[1])))
+        return VI(r)
+
+    def ext_now(self, args, kw, node):
+        self.st.ghost['clock_reads'] = VI(self.as_int(self.st.ghost.get('clock_reads', VI(0))) + 1)
+        return SV('opq', self.sym('now', OPQ), 'datetime')
+
+    def ext_iinfo(self, args, kw, node):
+        return SV('const', ('iinfo', args[0].t.name if args[0].k == 'const' else None))
+
     externals = {'re.compile': lambda self, args, kw, node: self.ext_re_compile(args, kw, node),
+                 'np.random.randint': lambda self, args, kw, node: self.ext_rng(args, kw, node),
+                 'datetime.now': lambda self, args, kw, node: self.ext_now(args, kw, node),
+                 'np.iinfo': lambda self, args, kw, node: self.ext_iinfo(args, kw, node),
+                 'np.issubdtype': lambda self, args, kw, node: VB(self.ufunc('issubdtype_' + (args[1].t.name.replace('.', '_') if args[1].k == 'const' else 'x'), OPQ, BOOL)(self.as_opq(args[0]))),
                  'np.zeros': lambda self, args, kw, node: self.ext_np_zeros(args, kw, node),
                  'np.dtype': lambda self, args, kw, node: self.ext_np_dtype(args, kw, node)}
 
